@@ -187,6 +187,25 @@ class Flow:
                     res.append(d)
         return res
 
+    def root_defs(self, use: ast.AST, name: Optional[str] = None, _seen: Optional[Set[int]] = None) -> List[Def]:
+        """Reaching definitions of a use, looking through plain copies `x = y` (as left by helper inlining and
+        by renaming refactorings): the definitions of y stand for the copy."""
+        seen = _seen if _seen is not None else set()
+        out: List[Def] = []
+        for d in self.defs_of_use(use, name):
+            if id(d) in seen:
+                continue
+            seen.add(id(d))
+            v = d.value
+            tgt_plain = isinstance(d.stmt, (ast.Assign, ast.AnnAssign)) and isinstance(
+                d.stmt.targets[0] if isinstance(d.stmt, ast.Assign) else d.stmt.target, ast.Name)
+            if d.kind == "assign" and isinstance(v, ast.Name) and tgt_plain and self.cfg.nodes_of(v):
+                sub = self.root_defs(v, None, seen)
+                out += [x for x in sub if x not in out] if sub else [d]
+            elif d not in out:
+                out.append(d)
+        return out
+
     def all_defs(self, name: str) -> List[Def]:
         out: List[Def] = []
         if name in self.func.params:
